@@ -1404,7 +1404,10 @@ def cal_worker(mod, job):
 # ---------------------------------------------------------------------------------------------------------------------
 # apply on a frequency grid that differs from the calibration's (subset / single / reordered selection of the calibration points)
 
-APPLY_GRIDS = {'all': (0, 1, 2), 'ends': (0, 2), 'last': (2,), 'upper': (1, 2), 'middle': (1,)}
+APPLY_GRIDS = {'all': (0, 1, 2), 'ends': (0, 2), 'last': (2,), 'upper': (1, 2), 'middle': (1,),
+               # requests BETWEEN calibration points (frequency in Hz as Fraction): the error terms are made linear in frequency, which the
+               # documented rational interpolation must reproduce exactly whatever the number of requested points
+               'between-1': (Fraction(3 * 10 ** 9, 2),), 'between-2': (Fraction(3 * 10 ** 9, 2), Fraction(3 * 10 ** 9)), 'between-3': (Fraction(5 * 10 ** 9, 4), Fraction(3 * 10 ** 9), Fraction(7 * 10 ** 9, 2))}
 
 
 def apply_grid_worker(mod, job):
@@ -1435,6 +1438,19 @@ def apply_grid_worker(mod, job):
             mvals = [[pf[0][i] for pf in per_f] for i in range(len(per_f[0][0]))]
             assert add_standard(flow, cfg, st, k, mvals, None, handles, val) == 0
         flow.xname = lambda q: 'g%d' % q
+        between = isinstance(sel[0], Fraction)
+        lin = {}
+        if between:
+            # solver results linear in frequency: x_j(f) = a_j + b_j * f / 1e9
+            def solver(A_, b_, m_, n_):
+                fi = len(flow.captured)
+                out_ = []
+                for j in range(n_):
+                    # (constant coefficients: with symbolic ones the rational interpolation of _vnacal_rfi does not finish within 600 s)
+                    if j not in lin: lin[j] = (cconst(Fraction(9 + 2 * j, 8) if j % 2 == 0 else Fraction(j, 16), Fraction(j - 1, 16)), cconst(Fraction(1 + j, 32), Fraction(2 - j, 64)))
+                    out_.append(lin[j][0] + lin[j][1] * cconst(freqs[fi] / 10 ** 9))
+                return out_
+            flow.solver = solver
         assert flow.solve() == 0
         n_out = L['el'] + L['el_terms']
         terms = [read_error_terms(flow, n_out, f) for f in range(3)]
@@ -1444,7 +1460,8 @@ def apply_grid_worker(mod, job):
         M = [[[csym('dm%d%d_q%d' % (r, c, q)) for q in range(K)] for c in range(n)] for r in range(n)]
         mp = flow.cmatrix([M[r][c] for r in range(n) for c in range(n)])
         vdp = flow.call('vnadata_alloc', [NULL, NULL])
-        rc = flow.icall('vnacal_apply_m', [flow.vcp, 0, flow.dvec([freqs[i] for i in sel]), K, mp, n, n, vdp])
+        reqf = list(sel) if between else [freqs[i] for i in sel]
+        rc = flow.icall('vnacal_apply_m', [flow.vcp, 0, flow.dvec(reqf), K, mp, n, n, vdp])
         def check(cond, q, detail=None):
             res['queries'] += 1
             if cond: res['unsat'] += 1
@@ -1459,7 +1476,14 @@ def apply_grid_worker(mod, job):
         if not check(rc == 0, 'vnacal_apply_m on a selection of the calibration frequencies succeeds', it.errors[-1:]): return res
         zero = cconst(0)
         for q, fi in enumerate(sel):
-            e = terms[fi]
+            if between:
+                # the terms at the requested frequency: the same linear law, unity term and leakage as stored at the calibration points
+                u_ = unity_index(typ, L, 0)
+                xs_ = [lin[j][0] + lin[j][1] * cconst(fi / 10 ** 9) for j in range(len(lin))]
+                e = xs_[:u_] + [cconst(1)] + xs_[u_:]
+                e = e + terms[0][len(e):]
+            else:
+                e = terms[fi]
             S = [[None] * n for _ in range(n)]
             for r in range(n):
                 for c in range(n):
@@ -1485,7 +1509,7 @@ def apply_grid_worker(mod, job):
             st_, mdl = irsym.check_zero(it, ex, timeout_ms=60000)
             res['queries'] += 1
             if st_ == 'unsat': res['unsat'] += 1
-            elif st_ == 'sat': res['sat'].append({'q': 'requested point %d (calibration frequency %d): S satisfies the documented equation with the error terms of that frequency' % (q, fi),
+            elif st_ == 'sat': res['sat'].append({'q': 'requested point %d (%s): S satisfies the documented equation with the error terms of that frequency' % (q, ('calibration frequency %d' % fi) if not between else ('%s Hz, between calibration points, terms linear in f' % fi)),
                                                   'model': {d.name(): str(mdl[d]) for d in list(mdl.decls())[:10]}})
             else: res['unknown'].append({'q': 'requested point %d' % q, 'why': str(mdl)})
         flow.call('vnadata_free', [vdp]); flow.call('vnacal_new_free', [flow.vnp]); flow.call('vnacal_free', [flow.vcp])
@@ -1506,6 +1530,7 @@ def apply_grid_worker(mod, job):
 def apply_grid_native(job):
     """the same selection natively: calibrate on 3 frequencies with frequency-dependent error terms, apply at the selected points"""
     typ, n, sel = job['type'], job['n'], APPLY_GRIDS[job['grid']]
+    if isinstance(sel[0], Fraction): return apply_between_native(job)
     L = ['#include <stdio.h>', '#include <stdlib.h>', '#include <math.h>', '#include <complex.h>', '#include <vnacal.h>',
          'static void errfn(const char *m, void *a, vnaerr_category_t c) { fprintf(stderr, "libvna: %s\\n", m); }',
          '/* one-port error box per frequency: m = (ts s + ti) / (tx s + 1) */',
@@ -1522,5 +1547,29 @@ def apply_grid_native(job):
          '  for (int q = 0; q < %d; ++q) { fq[q] = fv[sel[q]]; dm[q] = meas(sel[q], dut); }' % len(sel),
          '  vnadata_t *vd = vnadata_alloc(errfn, NULL); if (vnacal_apply_m(vcp, 0, fq, %d, dp, 1, 1, vd) != 0) { fprintf(stderr, "VF-ASSERT-FAIL: apply failed\\n"); return 1; }' % len(sel),
          '  for (int q = 0; q < %d; ++q) if (cabs(vnadata_get_cell(vd, q, 0, 0) - dut) > 1e-9) { fprintf(stderr, "VF-ASSERT-FAIL: corrected S at %%g Hz is %%g%%+gi, device is %%g%%+gi\\n", fq[q], creal(vnadata_get_cell(vd, q, 0, 0)), cimag(vnadata_get_cell(vd, q, 0, 0)), creal(dut), cimag(dut)); bad = 1; }' % len(sel),
+         '  vnadata_free(vd); vnacal_new_free(vnp); vnacal_free(vcp); return bad; }']
+    return '\n'.join(L) + '\n'
+
+
+def apply_between_native(job):
+    """error terms exactly linear in frequency (the measurements of short / open / match are produced from them), apply between the points"""
+    typ, sel = job['type'], APPLY_GRIDS[job['grid']]
+    K = len(sel)
+    L = ['#include <stdio.h>', '#include <stdlib.h>', '#include <math.h>', '#include <complex.h>', '#include <vnacal.h>',
+         'static void errfn(const char *m, void *a, vnaerr_category_t c) { fprintf(stderr, "libvna: %s\\n", m); }',
+         '/* one-port error box, every term linear in f (GHz): m = (ts s + ti) / (tx s + 1) */',
+         'static double complex ts(double g) { return 1.1 + 0.1 * I + (0.05 - 0.02 * I) * g; } static double complex ti(double g) { return 0.05 + (0.01 + 0.03 * I) * g; } static double complex tx(double g) { return 0.1 * I + (-0.02 + 0.01 * I) * g; }',
+         'static double complex meas(double g, double complex s) { return (ts(g) * s + ti(g)) / (tx(g) * s + 1.0); }',
+         'int main(void) { int bad = 0; const double fv[3] = {1e9, 2e9, 4e9}; vnacal_t *vcp = vnacal_create(errfn, NULL);',
+         '  vnacal_new_t *vnp = vnacal_new_alloc(vcp, VNACAL_%s, 1, 1, 3); vnacal_new_set_frequency_vector(vnp, fv);' % NAMES[typ],
+         '  double complex v[3]; double complex *p[1] = {v};',
+         '  for (int f = 0; f < 3; ++f) v[f] = meas(fv[f] / 1e9, -1); vnacal_new_add_single_reflect_m(vnp, p, 1, 1, VNACAL_SHORT, 1);',
+         '  for (int f = 0; f < 3; ++f) v[f] = meas(fv[f] / 1e9, 1); vnacal_new_add_single_reflect_m(vnp, p, 1, 1, VNACAL_OPEN, 1);',
+         '  for (int f = 0; f < 3; ++f) v[f] = meas(fv[f] / 1e9, 0); vnacal_new_add_single_reflect_m(vnp, p, 1, 1, VNACAL_MATCH, 1);',
+         '  if (vnacal_new_solve(vnp) != 0 || vnacal_add_calibration(vcp, "c", vnp) != 0) return 2;',
+         '  const double fq[%d] = {%s}; double complex dm[%d]; double complex *dp[1] = {dm}; const double complex dut = 0.3 - 0.4 * I;' % (K, ', '.join(repr(float(x)) for x in sel), K),
+         '  for (int q = 0; q < %d; ++q) dm[q] = meas(fq[q] / 1e9, dut);' % K,
+         '  vnadata_t *vd = vnadata_alloc(errfn, NULL); if (vnacal_apply_m(vcp, 0, fq, %d, dp, 1, 1, vd) != 0) { fprintf(stderr, "VF-ASSERT-FAIL: apply failed\\n"); return 1; }' % K,
+         '  for (int q = 0; q < %d; ++q) if (cabs(vnadata_get_cell(vd, q, 0, 0) - dut) > 1e-9) { fprintf(stderr, "VF-ASSERT-FAIL: corrected S at %%g Hz is %%g%%+gi, device is %%g%%+gi\\n", fq[q], creal(vnadata_get_cell(vd, q, 0, 0)), cimag(vnadata_get_cell(vd, q, 0, 0)), creal(dut), cimag(dut)); bad = 1; }' % K,
          '  vnadata_free(vd); vnacal_new_free(vnp); vnacal_free(vcp); return bad; }']
     return '\n'.join(L) + '\n'
